@@ -23,7 +23,7 @@ macro_rules! process_vs_core {
         let act1 = !use_mask || m1;
         let n = $b.input_frames_next();
         let no = $b.output_frames_next();
-        $nd.assume(n <= $MI && no <= $MO);
+        $crate::fit!($nd, n <= $MI && no <= $MO, "C16.demand_fits_scenario_bound[base]");
         let mut x0 = [0.0 as $T; $MI];
         let mut x1 = [0.0 as $T; $MI];
         fill_line(&mut x0[..], 0);
@@ -66,7 +66,7 @@ macro_rules! process_vs_core {
 macro_rules! partial_vs_padded {
     ($nd:ident, $a:ident, $b:ident, $T:ty, $MI:expr, $MO:expr) => {{
         let n = $b.input_frames_next();
-        $nd.assume(n <= $MI && n >= 2);
+        $crate::fit!($nd, n <= $MI && n >= 2, "C16.demand_fits_scenario_bound[base]");
         let use_mask = $nd.bool();
         let m1 = $nd.bool();
         let mb = [true, m1];
@@ -119,7 +119,7 @@ macro_rules! none_vs_zero {
         let mut k = 0;
         while k < 2 {
             let n = $b.input_frames_next();
-            $nd.assume(n <= $MI);
+            $crate::fit!($nd, n <= $MI, "C16.demand_fits_scenario_bound[base]");
             let mut oa = [sent; $MO];
             let mut ob = [sent; $MO];
             let none: Option<&[&[$T]]> = None;
